@@ -237,6 +237,7 @@ def install():
         old_thook(a)
     threading.excepthook = thook
     warnings.filterwarnings("ignore", category=ResourceWarning)
+    warnings.filterwarnings("ignore", message="Retry downloading")
     _installed = True
 
 
